@@ -6,7 +6,7 @@ header followed by a symbolic tail.  Oracle: the set of exception types each
 entry point documents; anything else that leaves the entry point is a
 violation labelled `uncaught:<Type>@<module>:<function>[<entry point>]`; a call
 that reaches Condition.wait() without time-out inside the link thread is
-`blocks-link-thread:<entry point>`; an environment call bound exceeded is
+`blocks-for-ever@<module>:<function>[<entry point>]`; an environment call bound exceeded is
 `endless-loop:<entry point>`.
 """
 import nfc.clf
@@ -14,6 +14,7 @@ import nfc.dep
 import nfc.llcp.pdu as pdu
 from symx.runner import exc_label
 from env import peer as envp
+from env import llcp as envl
 
 PROPERTY = "C07"
 
@@ -33,6 +34,10 @@ def guarded(sx, entry, allowed, fn, *args, **kw):
         return 'exc', type(e).__name__
     except RecursionError:
         sx.check(False, "unbounded-recursion:" + entry)
+    except envl.WouldBlock as e:
+        # Condition.wait() without time-out in the calling (link) thread
+        sx.check(False, exc_label(e).replace("uncaught:WouldBlock", "blocks-for-ever")
+                 + "[%s]" % entry)
     except Exception as e:
         label = exc_label(e)
         if label.endswith("@?"):
@@ -466,9 +471,6 @@ def link_call(sx, entry, fn, *args, **kw):
     what went wrong (blocking for ever included)"""
     try:
         return guarded(sx, entry, (), fn, *args, **kw)
-    except envl.WouldBlock as e:
-        sx.check(False, exc_label(e).replace("uncaught:WouldBlock", "blocks-link-thread")
-                 + "[%s]" % entry)
     except envp.TooManyCalls:
         sx.check(False, "endless-loop:" + entry)
 
@@ -751,15 +753,17 @@ def partitions(tier):
             add("llc-act:%s:%s" % (role, shape), "llc_activate", role=role, shape=shape,
                 then_run=shape.startswith("tlv") or shape in ("ffm:3", "ffm:4"))
     # (3) llc run loop
-    nmax = 5 if quick else 7
+    nmax = 7 if quick else 9
     for where in sorted(ADDR) + ["0", "1"]:
         for n in range(2, nmax + 1):
-            for t in range(16):
-                if n > 3 and where in ("free", "raw", "closed") and quick:
-                    continue
-                role = "Initiator" if (n + t) % 2 else "Target"
-                add("llc-run:%s:%d:%s" % (where, n, NAMES[t]), "llc_run", role=role,
-                    where=where, n=n, ptype=t, drained=bool(n % 2))
+            role = "Initiator" if n % 2 else "Target"
+            if where in ("0", "1") and n >= 6:
+                for t in range(16):
+                    add("llc-run:%s:%d:%s" % (where, n, NAMES[t]), "llc_run", role=role,
+                        where=where, n=n, ptype=t, drained=bool(n % 2))
+            else:
+                add("llc-run:%s:%d" % (where, n), "llc_run", role=role,
+                    where=where, n=n, ptype=None, drained=bool(n % 2))
     for where in ("0", "1"):
         for n in (0, 1):
             add("llc-run:%s:%d" % (where, n), "llc_run", role="Target", where=where, n=n,
